@@ -202,15 +202,18 @@ def body_sweep(rep, case):
             port = rig.ports[0]
             junk = b"\x00" * 165
             sent = []
-            for i in range(case["n"]):
-                if case["valid_every"] > 1 and i % case["valid_every"]:
-                    await rig.send(port, junk)
-                    continue
-                f = sweep_fields(i // case["valid_every"], case["stride"])
-                sent.append(f)
-                await rig.send(port, refb.encode(f, salt=2))
-                if len(sent) % 4096 == 0 and await rig.barrier():
-                    return sent, list(rig.callbacks), [port], list(rig.loop_errors)
+            try:
+                for i in range(case["n"]):
+                    if case["valid_every"] > 1 and i % case["valid_every"]:
+                        await rig.send(port, junk)
+                        continue
+                    f = sweep_fields(i // case["valid_every"], case["stride"])
+                    sent.append(f)
+                    await rig.send(port, refb.encode(f, salt=2))
+                    if len(sent) % 4096 == 0 and await rig.barrier():
+                        return sent, list(rig.callbacks), [port], list(rig.loop_errors)
+            except udptx.DeliveryStopped:
+                return sent, list(rig.callbacks), [port], list(rig.loop_errors)
             dead = await rig.barrier()
             return sent, list(rig.callbacks), dead, list(rig.loop_errors)
         finally:
